@@ -71,7 +71,20 @@ func (c *Ctx) execBlock(s *State, b *ssa.BasicBlock, pred *ssa.BasicBlock, out *
 			return // effects discovery: left the loop body
 		}
 		// loop header handling
-		if li.isHeader[b] && c.resumeHeader == b {
+		if k := c.unrollBound(fr.fn, b, li); li.isHeader[b] && k > 0 {
+			if fr.unrollCount == nil {
+				fr.unrollCount = map[*ssa.BasicBlock]int{}
+			}
+			fr.unrollCount[b]++
+			if fr.unrollCount[b] > k+1 {
+				name := fmt.Sprintf("%s/loop%d:unwind<=%d", fnKey(fr.fn), li.ordinal[b], k)
+				c.oblige(s, "unwind", name, False, "", "unwinding assertion: the loop iterates at most the stated number of times", c.props)
+				return
+			}
+			if pred != nil {
+				c.evalPhis(s, b, pred)
+			}
+		} else if li.isHeader[b] && c.resumeHeader == b {
 			c.resumeHeader = nil
 			pred = nil
 		} else if li.isHeader[b] {
@@ -144,6 +157,17 @@ func (c *Ctx) execBlock(s *State, b *ssa.BasicBlock, pred *ssa.BasicBlock, out *
 		}
 		pred, b = b, next
 	}
+}
+
+func (c *Ctx) unrollBound(fn *ssa.Function, b *ssa.BasicBlock, li *loopInfoT) int {
+	if !li.isHeader[b] {
+		return 0
+	}
+	fc := c.eng.contracts.funcs[qualFnName(fn)]
+	if fc == nil || fc.Unroll == nil {
+		return 0
+	}
+	return fc.Unroll[li.ordinal[b]]
 }
 
 // continueAfter resumes execution of block b right after instruction `after` on state s.
